@@ -50,7 +50,7 @@ func c01World() *world.World {
 	return w
 }
 
-var c01Markers = []string{"alice", "Alice", "Liddell", "bob@", "Bob Builder", "carol", "Carol"}
+var c01Markers = []string{"alice", "Alice", "Liddell", "bob@", "Bob Builder", "carol", "Carol", dirtyMarker}
 
 type c01Step struct {
 	Class   string
@@ -91,6 +91,17 @@ func c01Apply(w *world.World, e c01Event) c01Step {
 	case "complete":
 		w.Store.Complete(id(e.K), c01Users[e.K%len(c01Users)])
 		st.Class = "complete"
+	case "failed-writes":
+		// other replies (a victim's login success among them) were served on connections that failed at the first byte / after 200 bytes;
+		// callback(k) is served that way too
+		if w.Store.Registered("app-b") {
+			dirtyWrites(w)
+		}
+		if e.K < len(ids) {
+			w.DoFail(world.NewRequest("GET", "", w.Cfg.CallbackPath(), url.Values{"id": {id(e.K)}}, "", nil), 1)
+			w.DoFail(world.NewRequest("GET", "", w.Cfg.CallbackPath(), url.Values{"id": {id(e.K)}}, "", nil), -200)
+		}
+		st.Class = "failed-writes"
 	case "arm":
 		// the next callback's success path hits a storage failure
 		occ := map[string]int{}
@@ -587,6 +598,10 @@ func runC01(ctx Ctx) int {
 				}
 				hh := append(append([]c01Event{}, h...), c01Event{Kind: "callback", A: "get-query", K: k}, e2)
 				hsItems = append(hsItems, hs{hh})
+				// ... and by (replies on failing connections, callback(k) among them) ; callback(any)
+				if e2.A == "get-query" || e2.A == "post-body" || e2.A == "unknown" {
+					hsItems = append(hsItems, hs{append(append([]c01Event{}, h...), c01Event{Kind: "failed-writes", K: k}, e2)})
+				}
 			}
 			// ... and by callback(k) ; arm(one storage failure) ; callback(j): what an earlier, healthy callback left behind in
 			// the IdP must not turn a later failure into a Success
